@@ -999,6 +999,8 @@ pub struct MpcMsg {
 pub enum MpcMsgError {
     #[error("polytune engine is unreachable")]
     Unreachable,
+    #[error("message from unknown party {0}")]
+    UnknownParty(usize),
 }
 
 impl<B, C> PolicyState<B, C>
@@ -1008,7 +1010,12 @@ where
 {
     #[tracing::instrument(level = Level::TRACE, skip(self, ret))]
     async fn msg(&self, mpc_msg: MpcMsg, ret: Ret<MpcMsgError>) -> ControlFlow<()> {
-        match self.channel_senders[mpc_msg.from].send(mpc_msg.data).await {
+        let Some(sender) = self.channel_senders.get(mpc_msg.from) else {
+            // no policy scheduled yet or the sender is not a participant of it
+            ret_err(ret, MpcMsgError::UnknownParty(mpc_msg.from));
+            return ControlFlow::Continue(());
+        };
+        match sender.send(mpc_msg.data).await {
             Ok(_) => {
                 let _ = ret.send(Ok(()));
                 ControlFlow::Continue(())
